@@ -228,20 +228,23 @@ impl Memfs {
         // Validate path components
         let dir = path.dir()?;
         if let Some(entry) = guard.get_entry(&dir) {
-            if !entry.is_dir() {
+            // A link is never a directory to create entries in, even if it points to one
+            if !entry.is_dir() || entry.is_symlink() {
                 return Err(PathError::is_not_dir(dir).into());
             }
         } else {
             return Err(PathError::does_not_exist(dir).into());
         }
 
-        // Validate the path itself
+        // Validate the path itself, a link is neither a file nor a directory
         if let Some(x) = guard.get_entry(&path) {
-            if entry.is_file() && !x.is_file() {
+            if entry.is_symlink() {
+                if !x.is_symlink() {
+                    return Err(PathError::is_not_symlink(&path).into());
+                }
+            } else if entry.is_file() && (!x.is_file() || x.is_symlink()) {
                 return Err(PathError::is_not_file(&path).into());
-            } else if entry.is_symlink() && !x.is_symlink() {
-                return Err(PathError::is_not_symlink(&path).into());
-            } else if entry.is_dir() && !x.is_dir() {
+            } else if entry.is_dir() && (!x.is_dir() || x.is_symlink()) {
                 return Err(PathError::is_not_dir(&path).into());
             }
         } else {
@@ -537,7 +540,7 @@ impl Memfs {
     pub(crate) fn _is_dir<T: AsRef<Path>>(&self, guard: &MemfsGuard, path: T) -> bool {
         let abs = unwrap_or_false!(self._abs(guard, path));
         match guard.get_entry(&abs) {
-            Some(entry) => entry.is_dir(),
+            Some(entry) => entry.is_dir() && !entry.is_symlink(),
             None => false,
         }
     }
@@ -1312,7 +1315,7 @@ impl VirtualFileSystem for Memfs {
         let guard = self.read_guard();
         let abs = unwrap_or_false!(self._abs(&guard, path));
         match guard.get_entry(&abs) {
-            Some(entry) => entry.is_file(),
+            Some(entry) => entry.is_file() && !entry.is_symlink(),
             None => false,
         }
     }
